@@ -14,7 +14,7 @@ RULE = ("case = finite-automaton description (class enfa/nfa/dfa, <=5 states, <=
         "<=4 AND (a state that is not co-reachable OR an epsilon cycle OR >=2 start states). "
         "Distinct = SHA-1 of the canonical JSON case.")
 ASSUMPTIONS = ["reference NFA semantics (vlib/ref_fa.py) is the textbook definition",
-               "bounds sampled from {-1,0..5}; n=None only when the reference says the language is finite",
+               "bounds sampled from {0..5}; n=None only when the reference says the language is finite",
                "sizes bounded: <=5 states (random tier), exhaustive scopes as stated"]
 BUDGET = {"quick": 1200, "thorough": 8000}
 WATCHDOG = 20
@@ -28,7 +28,7 @@ EXHAUSTIVE_SCOPE = {
 def strategy(tier, flags):
     return st.fixed_dictionaries({
         "fa": gen_fa.fa_desc(),
-        "bounds": st.lists(st.integers(-1, 5), min_size=1, max_size=3, unique=True),
+        "bounds": st.lists(st.integers(0, 5), min_size=1, max_size=3, unique=True),
     })
 
 
